@@ -54,7 +54,8 @@ fn def_all() -> PropDef {
             "fractional -> integer casts truncate toward zero and value -> text casts use the engine's canonical text \
              (both implementation-defined in SQL); mixed numeric operands are promoted to the wider type \
              (smallint < int < bigint < double < decimal)",
-            "shapes whose SQL answer is dialect-dependent are not generated: MIN % -1, negative substring positions, \
+            "shapes whose SQL answer is dialect-dependent are not generated: MIN % -1, negative substring lengths and positions before the start of the string \
+             (a negative position within the string counts characters from its end, as tests/sql/substring.slt pins it), \
              an error in an unselected CASE branch or behind an absorbing AND/OR operand, NaN/infinite doubles, -0.0 as text",
             "rust_decimal / chrono / std parsing are trusted as scalar libraries; blob, timestamp, vector and interval \
              columns are out of scope",
